@@ -494,6 +494,26 @@ func (cs *ContractSet) ParseFile(path, pkgPath string) error {
 		case "lockinv":
 			// lockinv (c *container) lock: expr     |   lockinv (c *container) lock
 			cur, curLemma = nil, nil
+			if strings.HasPrefix(rest, "global ") {
+				// lockinv global mu: expr   |   lockinv global mu      (a package-level mutex guarding package-level variables)
+				after := strings.TrimSpace(rest[len("global "):])
+				field := after
+				expr := ""
+				if i := strings.Index(after, ":"); i >= 0 {
+					field = strings.TrimSpace(after[:i])
+					expr = strings.TrimSpace(after[i+1:])
+				}
+				k := pkgPath + ".<global>." + field
+				curLock = cs.LockInvs[k]
+				if curLock == nil {
+					curLock = &LockInv{TypeName: pkgPath + ".<global>", Field: field, Recv: "", PkgPath: pkgPath}
+					cs.LockInvs[k] = curLock
+				}
+				if expr != "" {
+					curLock.Invs = append(curLock.Invs, cs.clause(expr, path, ll.line))
+				}
+				continue
+			}
 			open := strings.Index(rest, "(")
 			cl := matchParen(rest, open)
 			if open != 0 || cl < 0 {
